@@ -4,6 +4,7 @@
   Property theorems only. Model: GeoModel/Traverse.lean (one Lean function per separately
   written Rust impl: `coords_count` is arithmetic, `coords_iter` is the traversal, …).
 -/
+import GeoProofs.Lemmas.GenKernel
 import GeoModel.Traverse
 import GeoProofs.Props.C18
 import Mathlib.Tactic.Linarith
@@ -1459,5 +1460,13 @@ example : ∀ o, extremes (.polygon ⟨[⟨0, 0⟩, ⟨4, 0⟩, ⟨4, 3⟩, ⟨0
     ∀ mn mx, boundingRect (.polygon ⟨[⟨0, 0⟩, ⟨4, 0⟩, ⟨4, 3⟩, ⟨0, 3⟩, ⟨0, 0⟩], []⟩) = some (mn, mx) →
     o.xMin.coord.x = mn.x :=
   fun o ho mn mx hb => (extremes_eq_bbox _ (by decide) o mn mx ho hb).1
+
+/-- [T] (translator tie) the running-fold step and the merge helpers of the bounding-box model equal the
+definitions regenerated from the Rust bodies on this run (`get_min_max` in geo-types/src/private_utils.rs,
+`partial_min` / `partial_max` in geo/src/utils.rs). -/
+theorem minmax_eq_source :
+    (∀ p mn mx, getMinMax p mn mx = Gen.getMinMax p mn mx) ∧
+    (∀ a b, partialMin a b = Gen.partialMin a b) ∧ (∀ a b, partialMax a b = Gen.partialMax a b) :=
+  ⟨Geo.Proofs.GenKernel.getMinMax_eq, Geo.Proofs.GenKernel.partialMin_eq, Geo.Proofs.GenKernel.partialMax_eq⟩
 
 end Geo.Proofs.C19
